@@ -320,6 +320,28 @@ def run (cfg : Cfg) (w : World) : Nat → List Item → List Segs → List Ev ×
       let r := run cfg w n stack' visited'
       (tr ++ r.1, r.2)
 
+/-- the same loop that does NOT stop at an exception (it drops the failing item and goes on): the events of
+    everything reachable and the exceptions met.  Not a model of the code — `run` is — but the order-free
+    envelope the harness compares against: whatever order the items are taken in, a real run reads a
+    sub-multiset of these events and, if any item fails, ends in one of these exceptions. -/
+def runAll (cfg : Cfg) (w : World) : Nat → List Item → List Segs → List Ev × List Err × Bool
+  | _, [], _ => ([], [], true)
+  | 0, _ :: _, _ => ([], [], false)
+  | n + 1, it :: stack, visited =>
+    match step cfg w it stack visited with
+    | (tr, .error e) =>
+      let r := runAll cfg w n stack visited
+      (tr ++ r.1, e :: r.2.1, r.2.2)
+    | (tr, .ok (stack', visited')) =>
+      let r := runAll cfg w n stack' visited'
+      (tr ++ r.1, r.2.1, r.2.2)
+
+def initialItems (cfg : Cfg) (roots : Option (List Str)) : Option (List Item) :=
+  match roots, cfg.root with
+  | none, none => none
+  | none, some _ => some [⟨['/'], none⟩]
+  | some rs, _ => some (rs.reverse.map (fun s => Item.mk s none))
+
 /-- `load_files(roots, root_folder=…)`: `roots` default to `["/"]` when a root folder is given -/
 def loadFiles (cfg : Cfg) (w : World) (fuel : Nat) (roots : Option (List Str)) : List Ev × RunEnd :=
   match roots, cfg.root with
